@@ -57,6 +57,49 @@ def _abrupt_stmt(st: ast.stmt) -> Optional[str]:
     return None
 
 
+_ALWAYS = ast.Constant(value=True)
+
+
+def _exit_expr(stmts: Sequence[ast.stmt]) -> Optional[ast.AST]:
+    """condition (as a synthetic expression over the tests of nested ifs) under which the block ends abruptly; _ALWAYS / None = always / never.
+    Only if/with nests are followed (a loop body's exits concern the loop, a try's its handlers)."""
+    acc: Optional[ast.AST] = None
+    for st in stmts:
+        e = _exit_stmt(st)
+        if e is None:
+            # a statement that may rebind the names the accumulated condition reads makes it unusable further down
+            continue
+        if e is _ALWAYS:
+            return _ALWAYS if acc is None else _ALWAYS
+        acc = e if acc is None else ast.BoolOp(op=ast.Or(), values=[acc, e])
+    return acc
+
+
+def _exit_stmt(st: ast.stmt) -> Optional[ast.AST]:
+    if _abrupt_stmt(st) and not isinstance(st, (ast.If, ast.With, ast.Try)):
+        return _ALWAYS
+    if isinstance(st, ast.If):
+        a, b = _exit_expr(st.body), _exit_expr(st.orelse)
+        parts = []
+        if a is _ALWAYS:
+            parts.append(st.test)
+        elif a is not None:
+            parts.append(ast.BoolOp(op=ast.And(), values=[st.test, a]))
+        nt = ast.UnaryOp(op=ast.Not(), operand=st.test)
+        if b is _ALWAYS:
+            parts.append(nt)
+        elif b is not None:
+            parts.append(ast.BoolOp(op=ast.And(), values=[nt, b]))
+        if a is _ALWAYS and b is _ALWAYS:
+            return _ALWAYS
+        if not parts:
+            return None
+        return parts[0] if len(parts) == 1 else ast.BoolOp(op=ast.Or(), values=parts)
+    if isinstance(st, (ast.With, ast.AsyncWith)):
+        return _exit_expr(st.body)
+    return None
+
+
 # ------------------------------------------------------------------ guard map
 Cond = Tuple[ast.AST, bool]  # (test expression, polarity)
 
@@ -90,6 +133,12 @@ class GuardMap:
                 elif b and not a:
                     conds.append((st.test, True))
                     self.early.add((id(st.test), True))
+                elif not a and not b:
+                    # some nested branch exits: what follows runs only when that nested condition failed
+                    e = _exit_expr([st])
+                    if e is not None and e is not _ALWAYS:
+                        conds.append((e, False))
+                        self.early.add((id(e), False))
             elif isinstance(st, (ast.For, ast.AsyncFor)):
                 self._block(st.body, conds, loops + [st])
                 self._block(st.orelse, conds, loops)
@@ -1068,6 +1117,17 @@ class Typestate:
         states = self._apply(states, st)
         k = _abrupt_stmt(st)
         states = self._kill(states, st)
+        if isinstance(st, ast.Assign) and len(st.targets) == 1 and isinstance(st.targets[0], ast.Name) and isinstance(st.value, ast.Constant) \
+                and isinstance(st.value.value, bool):
+            # flag = True / False: the flag's truth is known until it is reassigned
+            learnt = set()
+            for (rs, facts) in states:
+                fd = dict(facts)
+                self._learn(G.formula(st.targets[0], self.env), st.value.value, fd)
+                ns = (rs, frozenset(fd.items()))
+                self._note(ns, (rs, facts), None)
+                learnt.add(ns)
+            states = learnt
         if k == "raise":
             res["raise"] = states
         else:
